@@ -659,3 +659,14 @@ Proof.
   intros Hs Hk Ht Hw1 Hwk. unfold start. rewrite (first_gt_at_knot t _ k Hs) by (try rewrite map_length; assumption).
   unfold dyn_start. destruct (Z.of_nat (S k) - Z.of_nat w <? 0)%Z eqn:E; [apply Z.ltb_lt in E; lia|]. lia.
 Qed.
+(* second manifestation: the dummy's own slot returns message 0 when both arrive at the step's start *)
+Lemma dup_knot_dummy_slot_witness :
+  exists d t w es fp, (1 <= w)%nat /\ (w <= length es)%nat /\ length fp = length es /\ nondec (knots false d es fp) /\
+    t == nth (start d t w es + (w - 1)) (map (mask false d) es) 0 /\
+    nth 1 (apply_linear false d t w es fp) 0 == nth 1 (zoh d t w es fp) 0 /\
+    ~ nth 0 (apply_linear false d t w es fp) 0 == nth 0 (zoh d t w es fp) 0.
+Proof.
+  exists 0, 0, 2%nat, [ {| e_seq := -1; e_sent := 0; e_recv := 0 |}; {| e_seq := 0; e_sent := 0; e_recv := 0 |};
+                        {| e_seq := 1; e_sent := 1 # 2; e_recv := 1 # 2 |} ], [10; 20; 30].
+  repeat split; try (simpl; lia); try (vm_compute; discriminate); try (vm_compute; reflexivity).
+Qed.
